@@ -1433,8 +1433,8 @@ class _Frame:
             else:
                 kwargs[k.arg] = self.ev(k.value)
         if self.I.call_hook is not None:
-            args, kwargs = self._by_position(f, args, kwargs, not f.is_static())
-            r = self.I.call_hook(f, args, kwargs)
+            h_args, h_kwargs = self._by_position(f, args, kwargs, not f.is_static())
+            r = self.I.call_hook(f, h_args, h_kwargs)
             if r is not NotImplemented:
                 return r
         return self.I.call_function(f, args, kwargs, self_obj=selfobj)
@@ -1458,11 +1458,14 @@ class _Frame:
 
     def call(self, fn, args, kwargs, n):
         if self.I.call_hook is not None:
+            # (only what the HOOK sees is normalised: the call itself keeps its spelling - a memo keyed by (args, kwargs)
+            #  distinguishes f(a, b) from f(a, b=b), as Python does)
+            h_args, h_kwargs = args, kwargs
             if isinstance(fn, _Bound):
-                args, kwargs = self._by_position(fn.finfo, args, kwargs, fn.selfobj is not None and not fn.finfo.is_static())
+                h_args, h_kwargs = self._by_position(fn.finfo, args, kwargs, fn.selfobj is not None and not fn.finfo.is_static())
             elif isinstance(fn, FuncInfo):
-                args, kwargs = self._by_position(fn, args, kwargs, False)
-            r = self.I.call_hook(fn, args, kwargs)
+                h_args, h_kwargs = self._by_position(fn, args, kwargs, False)
+            r = self.I.call_hook(fn, h_args, h_kwargs)
             if r is not NotImplemented:
                 return r
         if isinstance(fn, Closure):
